@@ -86,7 +86,7 @@ func (c *c06) ID() string { return "C06" }
 
 func (c *c06) Phases(tier string) []PhaseSpec {
 	if tier == "thorough" {
-		return []PhaseSpec{{Name: "world", Runs: 200000, Note: "RunFiles histories on scratch worlds vs FS model + syscall write-set rule"}}
+		return []PhaseSpec{{Name: "world", Runs: 100000, Note: "RunFiles histories on scratch worlds vs FS model + syscall write-set rule"}}
 	}
 	return []PhaseSpec{{Name: "world", Runs: 5000, Note: "RunFiles histories on scratch worlds vs FS model + syscall write-set rule"}}
 }
